@@ -19,7 +19,6 @@ Proof.
   induction ms as [| [k v] ms IH]; intros cs ys cs' H.
   - inversion H. reflexivity.
   - cbn [filter_call] in H. cbn [filter]. unfold nonflag at 1, is_flag. cbn [fst].
-    destruct (needs_escape k); [discriminate |].
     destruct (String.eqb k "oneway") eqn:E1.
     { cbn [orb negb]. destruct v; try discriminate. eapply IH; exact H. }
     destruct (String.eqb k "more") eqn:E2.
@@ -60,7 +59,6 @@ Proof. intros k old ms H. unfold upd. apply lookup_none_iff in H. now rewrite H.
 Lemma filter_call_spec : forall ms cs,
   NoDup (keys ms) ->
   filter_call ms cs =
-  if existsb (fun kv => needs_escape (fst kv)) ms then None else
   match upd "oneway" (c_oneway cs) ms, upd "more" (c_more cs) ms, upd "upgrade" (c_upgrade cs) ms with
   | Some a, Some b, Some c => Some (filter nonflag ms, mk_cells a b c)
   | _, _, _ => None
@@ -69,34 +67,28 @@ Proof.
   induction ms as [| [k v] ms IH]; intros cs Hnd.
   - destruct cs. reflexivity.
   - inversion Hnd as [| ? ? Hnot Hnd']. subst.
-    cbn [filter_call existsb fst filter]. unfold nonflag at 1, is_flag. cbn [fst].
-    destruct (needs_escape k); [reflexivity |]. cbn [orb].
+    cbn [filter_call fst filter]. unfold nonflag at 1, is_flag. cbn [fst].
     unfold upd at 1 2 3. cbn [lookup].
     destruct (String.eqb k "oneway") eqn:E1.
     { apply String.eqb_eq in E1. subst k. cbn [String.eqb Ascii.eqb Bool.eqb andb orb negb].
-      destruct v; try (dex ms; reflexivity).
+      destruct v; try reflexivity.
       rewrite (IH _ Hnd'). cbn [c_oneway c_more c_upgrade].
       rewrite (upd_absent "oneway" _ ms Hnot). unfold upd. reflexivity. }
     destruct (String.eqb k "more") eqn:E2.
     { apply String.eqb_eq in E2. subst k. cbn [String.eqb Ascii.eqb Bool.eqb andb orb negb].
-      destruct v; try (dex ms; [reflexivity |];
-                       destruct (lookup "oneway" ms) as [[]|]; reflexivity).
+      destruct v; try (destruct (lookup "oneway" ms) as [[]|]; reflexivity).
       rewrite (IH _ Hnd'). cbn [c_oneway c_more c_upgrade].
       rewrite (upd_absent "more" _ ms Hnot). unfold upd.
-      dex ms; [reflexivity |].
       destruct (lookup "oneway" ms) as [[]|]; reflexivity. }
     destruct (String.eqb k "upgrade") eqn:E3.
     { apply String.eqb_eq in E3. subst k. cbn [String.eqb Ascii.eqb Bool.eqb andb orb negb].
-      destruct v; try (dex ms; [reflexivity |];
-                       destruct (lookup "oneway" ms) as [[]|]; try reflexivity;
+      destruct v; try (destruct (lookup "oneway" ms) as [[]|]; try reflexivity;
                        destruct (lookup "more" ms) as [[]|]; reflexivity).
       rewrite (IH _ Hnd'). cbn [c_oneway c_more c_upgrade].
       rewrite (upd_absent "upgrade" _ ms Hnot). unfold upd.
-      dex ms; [reflexivity |].
       destruct (lookup "oneway" ms) as [[]|]; try reflexivity;
         destruct (lookup "more" ms) as [[]|]; reflexivity. }
     cbn [orb negb]. rewrite (IH _ Hnd'). unfold upd.
-    dex ms; [reflexivity |].
     destruct (lookup "oneway" ms) as [[]|]; try reflexivity;
       destruct (lookup "more" ms) as [[]|]; try reflexivity;
       destruct (lookup "upgrade" ms) as [[]|]; reflexivity.
@@ -110,9 +102,7 @@ Theorem dec_call_spec : forall M ms,
 Proof.
   intros M ms Hnd. unfold dec_call, spec_call.
   rewrite (filter_call_spec ms no_cells Hnd). cbn [no_cells c_oneway c_more c_upgrade].
-  destruct (map_capable M).
-  2:{ dex ms; reflexivity. }
-  dex ms; [reflexivity |].
+  destruct (map_capable M); [| reflexivity].
   unfold upd, spec_flag.
   destruct (lookup "oneway" ms) as [[]|]; try reflexivity;
     destruct (lookup "more" ms) as [[]|]; try reflexivity;
@@ -160,8 +150,7 @@ Proof.
   assert (Hnd' : NoDup (keys ms')).
   { unfold keys. eapply Permutation_NoDup; [apply Permutation_map; exact Hp | exact Hnd]. }
   rewrite !dec_call_spec by assumption. unfold spec_call.
-  rewrite <- (existsb_perm (fun m : (string * jval)%type => needs_escape (fst m)) ms ms' Hp).
-  destruct (existsb (fun m : (string * jval)%type => needs_escape (fst m)) ms); [reflexivity |]. cbn [map_capable].
+  cbn [map_capable].
   unfold spec_flag. rewrite <- !(lookup_perm _ _ _ Hnd Hp).
   rewrite !decoder_adj.
   rewrite (adj_map_perm Direct tag content vs (filter (fun m => negb (is_flag (fst m))) ms)
@@ -179,8 +168,7 @@ Proof.
   assert (Hnd' : NoDup (keys ms')).
   { unfold keys. eapply Permutation_NoDup; [apply Permutation_map; exact Hp | exact Hnd]. }
   rewrite !dec_call_spec by assumption. unfold spec_call.
-  rewrite <- (existsb_perm (fun m : (string * jval)%type => needs_escape (fst m)) ms ms' Hp).
-  destruct (existsb (fun m : (string * jval)%type => needs_escape (fst m)) ms); [reflexivity |]. cbn [map_capable].
+  cbn [map_capable].
   unfold spec_flag. rewrite <- !(lookup_perm _ _ _ Hnd Hp).
   rewrite !decoder_struct.
   rewrite (struct_map_perm Direct (ftable fs) (filter (fun m => negb (is_flag (fst m))) ms)
